@@ -24,6 +24,22 @@ Theorem C08_unchecked_is_checked_plus_panic : forall fs gs n,
 Proof. intros. split; [apply dpower_expect|apply dmultiply_expect]. Qed.
 Print Assumptions C08_unchecked_is_checked_plus_panic.
 
+(* After the repairs of phase 4 the run-time paths are guarded by the checked operations
+   (Quantity::checked_power tries checked_mul first; the VM tries try_canonicalized on every
+   product/quotient) and the parser rejects more than 65535 `!`: NO path of the modelled
+   exponent arithmetic panics any more — the unchecked operations only run on operands for
+   which the checked ones succeeded. *)
+Theorem C08_guarded_paths_total : forall fs gs e,
+  upower_guarded fs e <> Panic /\
+  (all_wf fs -> all_wf gs -> pmultiply_guarded fs gs <> Panic).
+Proof. intros. split; [apply upower_guarded_no_panic|apply pmultiply_guarded_no_panic]. Qed.
+Print Assumptions C08_guarded_paths_total.
+
+Theorem C08_factorial_order_exact : forall bangs n,
+  parse_factorial_order bangs = Some n -> order_u16 n = n /\ 1 <= n.
+Proof. exact parse_factorial_order_exact. Qed.
+Print Assumptions C08_factorial_order_exact.
+
 (* The same for single exponents: `*` vs checked_mul (always), `+` vs checked_add
    (operands in range with positive denominators). *)
 Theorem C08_ratio_ops : forall x y,
@@ -43,7 +59,9 @@ Theorem C08_factorial_terminates : forall x order, 1 <= order -> 0 <= x ->
 Proof. exact factorial_order_ge1. Qed.
 Print Assumptions C08_factorial_terminates.
 
-(* Kernel-computed witnesses, one per open arithmetic finding:
+(* Kernel-computed witnesses of the UNCHECKED operations (the findings they belonged to are fixed
+   since phase 4: the code no longer reaches them with these operands; kept as documentation of
+   why the guards are needed):
    ((m/cm)^1e30)^1e30                       UnitFactor::power, 1e30 * 1e30
    fn f(x) = x^(2^126) * x^(2^126)          DType::power in a substitution, 2 * 2^126
    dimension Z = Length^(2^126) * Length^(2^126)   merge of equal factors, 2^126 + 2^126
@@ -90,5 +108,9 @@ Example C08_ex : rmul_checked (2, 3) (9, 4) = Val (3, 2)
   /\ dtry_power [(0%nat, (1, 2)); (1%nat, (-3, 1))] (2, 1) = Val [(0%nat, (1, 1)); (1%nat, (-6, 1))]
   /\ dtry_multiply [(0%nat, (1, 2)); (2%nat, (1, 1))] [(0%nat, (1, 2)); (1%nat, (3, 1))]
      = Val [(0%nat, (2, 2)); (1%nat, (3, 1)); (2%nat, (1, 1))]
-  /\ factorial_dbg 5 5 2 = Val (Some 15) /\ order_u16 3 = 3.
+  /\ factorial_dbg 5 5 2 = Val (Some 15) /\ order_u16 3 = 3
+  /\ upower_guarded [(0%nat, (10 ^ 30, 1))] (10 ^ 30, 1) = Overflow
+  /\ pmultiply_guarded [(0%nat, (2 ^ 126, 1))] [(0%nat, (2 ^ 126, 1))] = Overflow
+  /\ pmultiply_guarded [(0%nat, (1, 2))] [(0%nat, (1, 3))] = Val [(0%nat, (5, 6))]
+  /\ parse_factorial_order 65536 = None /\ parse_factorial_order 3 = Some 3.
 Proof. vm_compute. repeat split; reflexivity. Qed.
